@@ -66,6 +66,9 @@ pub struct TopicModel {
     /// candidate cursor positions (one element except after an AtLeastOnce restart)
     pub cursors: Vec<usize>,
     pub clean: bool,
+    /// a failed append may or may not have marked the topic dirty (not specified): the next
+    /// observation decides
+    pub clean_unknown: bool,
     // ---- layout mirror (aiming / classification only) ----
     pub has_writer: bool,
     pub cur: u64,
@@ -180,11 +183,15 @@ impl InstModel {
         format!("unknown bytes (len {}, head {})", e.len, e.head)
     }
 
-    pub fn on_append_ok(&mut self, t: u32, id: EntId) {
+    /// returns true when the topic's marker changed (clean -> dirty)
+    pub fn on_append_ok(&mut self, t: u32, id: EntId) -> bool {
         let tm = &mut self.topics[t as usize];
         tm.mirror_append(id.len);
         tm.appended.push(id);
+        let changed = tm.clean || tm.clean_unknown;
         tm.clean = false;
+        tm.clean_unknown = false;
+        changed
     }
 
     /// consuming or peeking read_next
